@@ -21,6 +21,14 @@ CHECKS = {
    text="The Machine specification states the matching rule (bindings in order, name equality or `condition` unless the error is a recovered panic), handler invocation with (quoted name, data...), the condition stack, rethrow by identity, ignore-errors with the panic carve-out; TLC computes the transcript of every nesting of handler-bind / ignore-errors / progn to the depth bound with every raise kind at every position, and each is compared with the real interpreter: which handler ran with which arguments, values, skipped forms, and the identity (pointer), condition, data and stack of the error the host finally receives. Kernel exhaustive checks the condition-stack discipline K12; cpush/cpop events are validated on real traces.",
    note="Bounded: nestings exhaustive to depth 1 (328 expressions) plus a 1500-sample of depth 2 in the quick tier; depth 2 exhaustive (13128) plus a depth-3 sample in the thorough tier. Binding lists are a curated set of 8 over the specifiers a, b, condition, internal-panic.",
    technique="TLA+ model checking with TLC; spec-predicted transcripts replayed on the code; trace validation", ref="DESIGN.md 6 C06"),
+ "C19": dict(engine="Bind",
+   text="Bind.tla states the run-time binder (required / &optional / &rest / &key, keyword-shaped and plain arguments) and the linter's static (min, max) summary as functions of a signature; TLC checks the agreement theorem (soundness, completeness without &key, no invalid-number-of-arguments after acceptance) in one state per (signature, k) for every well-formed shape up to the bound and for every signature of the REAL registry (dumped from the code at check time). Every prediction (lint reports?, binder outcome class) is replayed: the one-call program is linted with the builtin-arity / if-arity / user-arity analyzers and evaluated on the real interpreter, and both answers are compared with the specification and with each other. Shadowing: 17 syntactic contexts x k; the specification's Reach(ctx) is compared with the binding the evaluator actually reaches and the lint verdict with Expected(ctx, k).",
+   note="Exhaustive within the bounds (shapes of <= 4 parameter names, k <= 7; 5 and 8 thorough; registry k in 0..max+2). Malformed formal lists (control symbol in an invalid place) are outside the property's signature grammar. Five shadowing contexts are recorded as known findings (lint skips calls that reach the builtin).",
+   technique="TLA+ model checking with TLC (exhaustive); spec predictions replayed on linter and evaluator", ref="DESIGN.md 6 C19"),
+ "C20": dict(engine="PathFS",
+   text="PathFS.tla models a directory tree with file / directory / absolute / relative / dangling / cyclic links, lexical cleaning, link-expanding resolution, and what the RootDir library and the fs.FS library may answer. TLC enumerates every location string up to the component bound x 6 prefixes x 3 loading contexts x 2 root spellings, one state per case, checking NoEscape, and prints the served cases. The harness builds the same tree on the real file system and runs the same case space through LoadSource, (load-file ...) written in a loading file, and LoadFile; whatever the code serves must be served by the specification with the same content (so a relative location resolved against the wrong directory is caught as well as an escape).",
+   note="Exhaustive over locations of <= 3 components (4 thorough) of a 19-name alphabet on one rich layout (links to files and directories inside and outside, to the root's parent, a sibling sharing the root's prefix, root itself given through a link). Refusing is always allowed by the property; refusals of servable locations are counted in the evidence, not reported. os.DirFS follows links by documented design, so link layouts are exercised only against the RootDir library.",
+   technique="TLA+ model checking with TLC (exhaustive case enumeration); spec predictions replayed on a real directory tree", ref="DESIGN.md 6 C20"),
 }
 
 NA_REASON = "check under construction (see DESIGN.md section 6); not yet claimed"
